@@ -6,7 +6,7 @@
  * synchronously and through the thread pool of a new loop and prints
  *   n=<worker threads started> S{res out} P{res out cb=<n>}
  * n = entries of /proc/self/task after the asynchronous request minus before the loop
- * existed.  A watchdog (SIGALRM after 4 s) turns a request that never completes into
+ * existed.  A watchdog (SIGALRM after 3 s) turns a request that never completes into
  *   n=<threads> S{..} P{hang cb=0}
  */
 #define _GNU_SOURCE
@@ -93,7 +93,7 @@ static void child(const char* value, const char* op, const char* dir) {
   memset(mem, 0xEE, sizeof mem);
   if (!strcmp(op, "read")) fd = open("a.txt", O_RDONLY);
   if (!strcmp(op, "write")) { fd = open("w2", O_WRONLY | O_CREAT | O_TRUNC, 0644); for (i = 0; i < 21; i++) mem[i] = (unsigned char) ('a' + i); }
-  signal(SIGALRM, on_alarm); alarm(4);
+  signal(SIGALRM, on_alarm); alarm(3);
   rc = !strcmp(op, "stat") ? uv_fs_stat(&loop, &req, "a.txt", on_fs)
      : !strcmp(op, "read") ? uv_fs_read(&loop, &req, fd, b, 3, 2, on_fs)
      : !strcmp(op, "write") ? uv_fs_write(&loop, &req, fd, b, 3, 5, on_fs)
